@@ -116,6 +116,6 @@ PROPS = {
              "followed by seeded lifecycles of 1 server + 1..3 client tasks with per-call fault scripts (socket/bind/listen/connect/accept/read/write/close outcomes), listeners on taken addresses, open retries and seeded schedules; "
              "distinct = distinct trace hash (every simulated call outcome and scheduling decision is hashed); non-trivial = plan has >= 3 operations",
              probes=["sweep_plan", "accept_ok", "send_true", "recv_over_4096", "dup_ok", "open_failed", "accept_failed", "run_ended_blocked", "run_completed",
-                     "recv_ended_at_eof", "recv_ended_on_error", "send_partially_delivered", "natural_eagain_on_write", "dup_without_descriptor"]),
+                     "recv_ended_at_eof", "recv_ended_on_error", "send_partially_delivered", "natural_eagain_on_write", "dup_without_descriptor", "sender_nonblocking_through_its_copy"]),
     "T00": P(["asan"], 3, 10, "selftest: random allocator traffic; distinct = distinct trace hash among runs with >= 3 ops"),
 }
